@@ -19,6 +19,17 @@ def make_circuits(ck, rnd, n):
     cs += arity_circuits()
     for t in range(n):
         cs.append(gen.gen_circuit(rnd, max_gates=ck.pick(8, 16), max_in=4, max_ff=ck.pick(2, 4)))
+    # implementation circuits of library cells, simulated as they are: gates wired to gates and ports without a fork in
+    # between (fork elimination has run on them), line 0 feeding a gate, several gates of one kind with different arities
+    from .c10 import libs
+    seen, impls = set(), []
+    for lname, tlib in sorted(libs().items()):
+        for name, (impl, pins) in sorted(tlib.cells.items()):
+            if id(impl) not in seen and 2 <= len(impl.nodes) <= 40 and len(impl.lines) > 0:
+                seen.add(id(impl))
+                impls.append(impl)
+    for impl in rnd.sample(impls, min(len(impls), ck.pick(30, 200))):
+        cs.append(impl.copy())
     return cs
 
 
